@@ -4,6 +4,6 @@ M="$1"; shift
 for c in "$@"; do
   out=$(tools/with_mutant.sh "$M" -- ./check "$c" 2>&1)
   rc=$(echo "$out" | grep -o "mutant-run rc=[0-9]*" | cut -d= -f2)
-  v=$(echo "$out" | grep -c "^VIOLATION")
-  echo "$(basename $M .diff) $c rc=$rc violations=$v $(echo "$out" | grep '^C[0-9][0-9] tier' | sed 's/.*wall=/wall=/')"
+  v=$(echo "$out" | grep -c "^VIOLATION"); he=$(echo "$out" | grep -c "HARNESS-ERROR")
+  echo "$(basename $M .diff) $c rc=$rc violations=$v harness_errors=$he $(echo "$out" | grep '^C[0-9][0-9] tier' | sed 's/.*wall=/wall=/')"
 done
